@@ -239,7 +239,8 @@ def gen_counts(rng, n, shots, k):
 
 
 OP_FAMILIES = ["distinct-strings", "distinct-strings", "single-z", "duplicate-strings", "cancelling-duplicates", "identity-repeated",
-               "unsimplified-sum", "complex-coefficients"]
+               "unsimplified-sum", "complex-coefficients", "scaled", "scaled"]
+SCALES = [1e-12, 1e-9, 1e-6, 1e-3, 1e3, 1e6, 1e12]
 
 
 def gen_op(rng, n, family=None):
@@ -265,6 +266,10 @@ def gen_op(rng, n, family=None):
     elif family == "unsimplified-sum":  # SparsePauliOp.sum of partial operators sharing strings, not simplified
         parts = [[[rng.choice(COEFFS), rng.choice(masks)] for _ in range(rng.randint(1, 3))] for _ in range(rng.randint(2, 4))]
         terms = [t for part in parts for t in part]
+    elif family == "scaled":  # the property is relative: the same operator at an overall scale of 1e-12 .. 1e12
+        sc = rng.choice(SCALES)
+        terms += [[rng.choice(COEFFS), rng.choice(masks)]] if rng.random() < 0.5 else []
+        terms = [[c * sc, m] for c, m in terms]
     elif family == "complex-coefficients":  # complex coefficients with zero imaginary part, one string repeated
         terms.append([rng.choice(COEFFS), rng.choice(masks)])
     return family, terms, parts
@@ -432,8 +437,12 @@ def do_agg(ctx, case, glits, kept):
     exact = entries_of(case)
     as_float = entries_of(case, exact=False)
     V = scale([v for _, v in exact])
-    slack = FLOAT_SLACK * max(V, Fraction(1, 8))
-    tol = float(Fraction(1, 10**9) * V + Fraction(1, 10**15))
+    # float rounding is relative to the magnitude of the terms: S = sum of |coefficients| (>= V); everything below is
+    # relative to it, so that operators of overall scale 1e-12 .. 1e12 are judged as strictly as those of scale 1
+    S = sum((abs(Fraction(c_)) for c_, _ in case["op"]), Fraction(0))
+    slack = FLOAT_SLACK * S
+    tol_q = Fraction(1, 10**9) * S + Fraction(1, 10**40)
+    tol = tol_q  # exact rational literal for the model comparison
     E = sum(p * v for p, v in exact)
     lo = min(v for _, v in exact)
     results = []
@@ -456,12 +465,12 @@ def do_agg(ctx, case, glits, kept):
             continue
         c = cvar_exact(exact, a)
         b_op, b_bs = bounds(exact, a)
-        slack = FLOAT_SLACK * max(V, Fraction(1, 8))
+        slack = FLOAT_SLACK * S
         if no_break_possible(as_float, a):
             # sharper clause (C14_exact_when_no_break / C14_exact_below_smallest_probability): exact equality with the
             # definition on the float probabilities, up to float rounding (the last take alpha - gathered is rounded)
             c, b_op, b_bs = cvar_exact(as_float, a), Fraction(0), Fraction(0)
-            slack += Fraction(1, 10**15) / a * max(V, Fraction(1, 8))
+            slack += Fraction(1, 10**15) / a * S
             ctx.tally("oracle:exact-clause")
             if all(a <= p for p, _ in as_float):
                 ctx.tally("oracle:alpha-below-every-probability")
